@@ -509,6 +509,22 @@ let run_cmd toks =
       (if st.s_failed then "FAIL " else "OK ") ^ state
   | _ -> failwith "cmd"
 
+let run_openopts toks =
+  match toks with
+  | [ cr; cn; tr; outkind ] ->
+      let prior = nl [ 9; 9; 9 ] in
+      let out = match outkind with "absent" -> Absent | "regular" -> Reg prior | _ -> Reg [] in
+      let st = open_output (cr = "1") (cn = "1") (tr = "1") { s_failed = false; s_out = out; s_eff = [] } in
+      let len c = string_of_int (List.length c) in
+      let state =
+        match (out, st.s_out) with
+        | Absent, Absent -> "absent"
+        | Absent, (Reg c | Blk c) -> "created:" ^ len c
+        | _, Absent -> "removed"
+        | a, b -> if a = b then "unchanged" else (match b with Reg c | Blk c -> "modified:" ^ len c | Absent -> "removed") in
+      (if st.s_failed then "FAIL " else "OK ") ^ state
+  | _ -> failwith "openopts"
+
 let run_trace toks =
   match toks with
   | [ mode ] ->
@@ -610,6 +626,7 @@ let dispatch (line : string) : string =
   | "compress" :: r -> run_compress r
   | "compresscli" :: r -> run_compresscli r
   | "cmd" :: r -> run_cmd r
+  | "openopts" :: r -> run_openopts r
   | "aclone" :: r -> run_aclone r
   | "cbytes" :: r -> run_cbytes false r
   | "cbytesw" :: r -> run_cbytes true r
